@@ -83,8 +83,11 @@ def gen(seed, tier, scale):
             idx += 1
     for _ in range((1500 if tier == "quick" else 40000) * scale):
         rng = case_rng(seed, ID, idx)
+        # categories of the head-rule tables, bare and with the decorations the label grammar allows (a gap index alone,
+        # a function, a co-index, a head marker): head finding looks at the category only
+        labels = treegen.PLAIN_LABELS if rng.random() < 0.6 else treegen.PLAIN_LABELS + ["VP=1", "NP=2", "S=1", "PP=3", "VP-HD", "NP-SBJ-1", "VP=2-1", "NP'", "AP=12"]
         cfg = treegen.Cfg(n_min=2, n_max=11, p_disc=rng.choice([0.2, 0.5, 0.7]), p_punct=0.1,
-                          labels=treegen.PLAIN_LABELS, none_fields=False)
+                          labels=labels, none_fields=False)
         t = treegen.gen_tree(rng, cfg)
         tag_uids(t)
         yield idx, pipe_case(t, rng, "random")
